@@ -24,6 +24,9 @@ type c14Case struct {
 	NoSp   bool     `json:"nospace"`
 	Keys   []string `json:"keys"` // tab | backtab | down | up | interrupt | type | ret
 	ICase  bool     `json:"icase"`
+	// second completion round in the same call: text typed after the first round, then keys
+	Text2 string   `json:"text2,omitempty"`
+	Keys2 []string `json:"keys2,omitempty"`
 }
 
 var c14Lines = []string{"", "git ", "git c", "git co", "echo foo ba", "ls -la /tm", "x", "cmd --fl", "a b c d", "wörld 世", "say \"quoted wo", "path/to/fi", "echo   spaced  w", "tail\\ with\\ esc", "UPPER lo"}
@@ -97,11 +100,26 @@ func c14Gen(r *rand.Rand, tier string, idx int) any {
 	}
 	c.Tagged = r.Intn(4) == 0
 	c.NoSp = r.Intn(4) == 0
+	menuKeys := []string{"tab", "tab", "tab", "backtab", "down", "up", "left", "right", "ctrl-n", "ctrl-p", "search", "accept-and"}
 	nk := 1 + r.Intn(6)
 	for i := 0; i < nk; i++ {
-		c.Keys = append(c.Keys, pick(r, []string{"tab", "tab", "tab", "backtab", "down", "up"}))
+		c.Keys = append(c.Keys, pick(r, menuKeys))
 	}
-	c.Keys = append(c.Keys, pick(r, []string{"interrupt", "interrupt", "type", "ret", "ret"}))
+	if r.Intn(3) == 0 {
+		// a second round on the same shell: the first one ends by typing a character
+		c.Keys = append(c.Keys, pick(r, []string{"type", "space"}))
+		w2 := pick(r, c.Values)
+		if rs := []rune(w2); r.Intn(2) == 0 && len(rs) > 1 {
+			w2 = string(rs[:1+r.Intn(len(rs)-1)])
+		}
+		c.Text2 = " " + w2
+		for i, nk := 0, 1+r.Intn(4); i < nk; i++ {
+			c.Keys2 = append(c.Keys2, pick(r, menuKeys))
+		}
+		c.Keys2 = append(c.Keys2, pick(r, []string{"interrupt", "interrupt", "type", "space", "ret", "ret"}))
+		return c
+	}
+	c.Keys = append(c.Keys, pick(r, []string{"interrupt", "interrupt", "type", "space", "ret", "ret"}))
 	return c
 }
 
@@ -127,7 +145,8 @@ func c14Completer(c *c14Case) func([]rune, int) readline.Completions {
 	}
 }
 
-var c14KeyBytes = map[string]string{"tab": "\t", "backtab": "\x1b[Z", "down": "\x1b[B", "up": "\x1b[A", "interrupt": "\x03", "type": "z", "ret": "\r"}
+var c14KeyBytes = map[string]string{"tab": "\t", "backtab": "\x1b[Z", "down": "\x1b[B", "up": "\x1b[A", "left": "\x1b[D", "right": "\x1b[C", "ctrl-n": "\x0e", "ctrl-p": "\x10",
+	"search": "\x06", "accept-and": "\x00", "interrupt": "\x03", "type": "z", "space": " ", "ret": "\r"}
 
 func c14Run(env *fw.Env, raw json.RawMessage) fw.Outcome {
 	var c c14Case
@@ -148,6 +167,15 @@ func c14Run(env *fw.Env, raw json.RawMessage) fw.Outcome {
 	for _, k := range c.Keys {
 		plan = append(plan, sess.Step{W: c14KeyBytes[k], Tag: k})
 	}
+	if c.Text2 != "" {
+		// one character per read: every intermediate state is an input wait
+		for _, ch := range c.Text2 {
+			plan = append(plan, sess.Step{W: string(ch), Tag: "text2"})
+		}
+		for _, k := range c.Keys2 {
+			plan = append(plan, sess.Step{W: c14KeyBytes[k], Tag: k})
+		}
+	}
 	res := s.Call(plan, retExit)
 	ctx := fmt.Sprintf("mode=%s L0=%q back=%d values=%q descs=%v tagged=%v nospace=%v icase=%v keys=%v", c.Mode, c.L0, c.Back, c.Values, len(c.Descs) > 0, c.Tagged, c.NoSp, c.ICase, c.Keys)
 	if !stdFailures(&o, res, ctx) {
@@ -166,46 +194,79 @@ func c14Run(env *fw.Env, raw json.RawMessage) fw.Outcome {
 		o.Inc("the buffer before the first completion key is not the planned one")
 		return o.O
 	}
-	L0 := []rune(w0.Line)
-	c0 := w0.Pos
-	ws := wordStart(L0, c0)
-	pre, post := string(L0[:ws]), string(L0[c0:])
-	wordCls := "empty-word"
-	switch {
-	case ws < c0 && c0 < len(L0) && L0[c0] != ' ':
-		wordCls = "mid-word"
-	case ws < c0:
-		wordCls = "end-of-word"
-	}
-	menuWasActive := false
+	// The word being completed is fixed when a completion starts: the anchor is the last state
+	// observed while no menu was active.
+	anchor, prev := w0, w0
+	isCompKey := map[string]bool{"tab": true, "backtab": true, "down": true, "up": true, "left": true, "right": true, "ctrl-n": true, "ctrl-p": true, "search": true}
 	for i := first; i < len(plan); i++ {
 		w, ok := after[i]
 		if !ok {
+			// the call ended at this key
+			if plan[i].Tag == "interrupt" && (prev.Local == "menu-select" || prev.Local == "isearch") {
+				o.Viol("interrupt-in-menu-ended-the-call", ctx+fmt.Sprintf(" key %d; returned=%v err=%q", i-first, res.Returned, res.Err))
+			}
 			break
 		}
 		key := plan[i].Tag
-		o.O.Events++
-		o.Cover(fmt.Sprintf("%s|%s|n%d|%s|%v", key, wordCls, min(len(c.Values), 4), w.Local, c.ICase))
-		switch key {
-		case "tab", "backtab", "down", "up":
-			if w.Line == string(L0) {
-				// nothing inserted (no candidate, or the menu shows without insertion)
-				menuWasActive = menuWasActive || w.Local == "menu-select"
-				continue
-			}
-			// framing: L == L0[:ws] + v (+ optional blank after an accepted unique match) + L0[c0:]
-			okFrame := false
-			// the statement does not define word boundaries: a blank escaped with a backslash
-			// may or may not separate words, both readings are accepted
-			pre2 := string(L0[:plainWordStart(L0, c0)])
+		if c.Mode == "vi" && w.Main != "vi-insert" {
+			// an escape sequence that is not bound in the insert keymap left insert mode:
+			// the remaining keys are Vi commands, not completion keys
+			o.Add("vi_cases_that_left_insert_mode", 1)
+			break
+		}
+		active := prev.Local == "menu-select" || prev.Local == "isearch"
+		if !active {
+			anchor = prev
+		}
+		L0 := []rune(anchor.Line)
+		c0 := anchor.Pos
+		ws := wordStart(L0, c0)
+		pre, post := string(L0[:ws]), string(L0[c0:])
+		// the statement does not define word boundaries: a blank escaped with a backslash
+		// may or may not separate words, both readings are accepted
+		pre2 := string(L0[:plainWordStart(L0, c0)])
+		wordCls := "empty-word"
+		switch {
+		case ws < c0 && c0 < len(L0) && L0[c0] != ' ':
+			wordCls = "mid-word"
+		case ws < c0:
+			wordCls = "end-of-word"
+		}
+		round := "first-round"
+		if c.Text2 != "" && i >= first+len(c.Keys) {
+			round = "later-round"
+		}
+		// framed(line): line == pre + v + post for an offered v; closed menus may add a blank
+		framed := func(line string, closed bool) (string, bool) {
 			for _, v := range c.Values {
 				for _, p := range []string{pre, pre2} {
-					if w.Line == p+v+post || (w.Local != "menu-select" && w.Line == p+v+" "+post) {
-						okFrame = true
+					if line == p+v+post || (closed && line == p+v+" "+post) {
+						return v, true
 					}
 				}
 			}
-			if !okFrame {
+			return "", false
+		}
+		o.O.Events++
+		o.Cover(fmt.Sprintf("%s|%s|n%d|%s|%v|%s", key, wordCls, min(len(c.Values), 4), w.Local, c.ICase, round))
+		if key == "accept-and" && prev.Local == "isearch" {
+			// the candidate is accepted while the input line is not observable: not judged further
+			o.Add("accept_and_menu_complete_inside_menu_isearch_not_judged", 1)
+			break
+		}
+		if w.Local == "isearch" {
+			// while the candidates are searched incrementally the API exposes the search
+			// minibuffer, not the input line: judged again at the next wait outside it
+			o.Add("waits_in_menu_isearch_not_judged", 1)
+			prev = &sess.Snap{Line: prev.Line, Pos: prev.Pos, Local: "isearch"}
+			continue
+		}
+		switch {
+		case isCompKey[key] && (active || key == "tab" || key == "backtab"):
+			if w.Line == string(L0) {
+				break // nothing inserted (no candidate, or the menu shows without insertion)
+			}
+			if _, ok := framed(w.Line, w.Local != "menu-select" && w.Local != "isearch"); !ok {
 				cls := "text-outside-the-word-changed"
 				if strings.HasPrefix(w.Line, pre) && strings.HasSuffix(w.Line, post) && len(w.Line) >= len(pre)+len(post) {
 					cls = "word-is-not-an-offered-value"
@@ -213,35 +274,75 @@ func c14Run(env *fw.Env, raw json.RawMessage) fw.Outcome {
 				if c0 == 0 && len(L0) > 0 {
 					wordCls += "|cursor-at-line-start-before-a-word"
 				}
-				o.Viol("completion-framing|"+cls+"|"+wordCls, ctx+fmt.Sprintf(" after key %d (%s): buffer %q; expected %q + <offered value> + %q", i-first, key, w.Line, pre, post))
+				o.Viol("completion-framing|"+cls+"|"+wordCls, ctx+fmt.Sprintf(" after key %d (%s, %s): buffer %q; expected %q + <offered value> + %q", i-first, key, round, w.Line, pre, post))
 			}
-			menuWasActive = w.Local == "menu-select"
-		case "interrupt":
-			if menuWasActive {
-				if !res.Returned || res.Err == "" || true {
-					// the call must continue with the original buffer and cursor
+		case key == "accept-and" && prev.Local == "menu-select":
+			// accept-and-menu-complete: the inserted candidate v1 becomes part of the line and
+			// the next candidate is inserted after it
+			v1, ok := framed(prev.Line, false)
+			if !ok {
+				if w.Line != prev.Line {
+					o.Viol("completion-framing|accept-and-menu-complete-without-a-candidate-changed-the-buffer", ctx+fmt.Sprintf(" key %d: %q -> %q", i-first, prev.Line, w.Line))
 				}
-				if w.Line != string(L0) || w.Pos != c0 {
-					o.Viol("interrupt-in-menu-does-not-restore|"+wordCls, ctx+fmt.Sprintf(" after C-c: buffer %q pos %d, expected %q pos %d", w.Line, w.Pos, string(L0), c0))
-				}
-				o.Add("interrupts_in_active_menu", 1)
+				break
 			}
-			menuWasActive = false
+			o.Add("accept_and_menu_complete_with_a_candidate", 1)
+			good, stale := false, false
+			word := L0[ws:c0]
+			v1r := []rune(v1)
+			for _, p := range []string{pre, pre2} {
+				if w.Line == p+v1+post || w.Line == p+v1+" "+post {
+					good = true
+				}
+				for _, v2 := range c.Values {
+					if w.Line == p+v1+v2+post || w.Line == p+v1+" "+v2+post {
+						good = true
+					}
+					if len(word) > 0 && len(word) <= len(v1r) && w.Line == p+string(v1r[:len(v1r)-len(word)])+v2+post {
+						stale = true
+					}
+				}
+			}
+			switch {
+			case good:
+			case stale:
+				o.Viol("accept-and-menu-complete-cuts-the-accepted-candidate-by-the-length-of-the-completed-word", ctx+fmt.Sprintf(" key %d (%s): %q with %q inserted -> %q", i-first, round, string(L0), v1, w.Line))
+			default:
+				o.Viol("completion-framing|after-accept-and-menu-complete|"+wordCls, ctx+fmt.Sprintf(" key %d (%s): %q with %q inserted -> %q", i-first, round, string(L0), v1, w.Line))
+			}
+			// what follows cycles from the accepted state: not judged
+			i = len(plan)
+		case (key == "type" || key == "space") && prev.Local == "menu-select":
+			// typing accepts the inserted candidate and inserts the character after it
+			ch := c14KeyBytes[key]
+			if v, ok := framed(prev.Line, false); ok && prev.Line != string(L0) {
+				o.Add("candidates_accepted_by_typing", 1)
+				okAcc := false
+				for _, p := range []string{pre, pre2} {
+					if w.Line == p+v+ch+post {
+						okAcc = true
+					}
+					// a suffix the completer declared removable may be dropped
+					if vr := []rune(v); c.NoSp && len(vr) > 0 && (vr[len(vr)-1] == '/' || vr[len(vr)-1] == '=') && w.Line == p+string(vr[:len(vr)-1])+ch+post {
+						okAcc = true
+					}
+				}
+				if !okAcc {
+					o.Viol("accepting-by-typing-changes-the-candidate|"+key, ctx+fmt.Sprintf(" after key %d (%s, %s): buffer %q, before the key %q (candidate %q inserted)", i-first, key, round, w.Line, prev.Line, v))
+				}
+			}
+		case key == "interrupt" && active:
+			if w.Line != string(L0) || w.Pos != c0 {
+				o.Viol("interrupt-in-menu-does-not-restore|"+wordCls, ctx+fmt.Sprintf(" after C-c (%s): buffer %q pos %d, expected %q pos %d", round, w.Line, w.Pos, string(L0), c0))
+			}
+			o.Add("interrupts_in_active_menu", 1)
+			if i == len(plan)-1 && res.Returned && res.Err == "" && res.Line != string(L0) {
+				o.Viol("line-returned-after-interrupted-menu-differs", ctx+fmt.Sprintf(" returned %q, expected %q", res.Line, string(L0)))
+			}
 		}
+		prev = w
 		if len(o.O.Findings) > 0 {
 			break
-		}
-	}
-	// C-c in an active menu must not end the call: the final RET returns a line without error
-	for i := first; i < len(plan); i++ {
-		if plan[i].Tag == "interrupt" {
-			if pw, ok := after[i-1]; ok && pw.Local == "menu-select" {
-				if _, cont := after[i]; !cont {
-					o.Viol("interrupt-in-menu-ended-the-call", ctx+fmt.Sprintf(" returned=%v err=%q", res.Returned, res.Err))
-				} else if res.Returned && res.Err == "" && res.Line != string(L0) && i == len(plan)-1 {
-					o.Viol("line-returned-after-interrupted-menu-differs", ctx+fmt.Sprintf(" returned %q, expected %q", res.Line, string(L0)))
-				}
-			}
 		}
 	}
 	if env.Verbose {
@@ -262,9 +363,9 @@ func init() {
 		ID:        "C14",
 		Level:     "exploration",
 		NeedsTerm: true,
-		Rule: "buffers (15 shapes: empty, trailing blank, partial words, quotes, escaped blanks, multi-byte) with the cursor at the end or moved back 0..len characters, candidate sets of 1-8 values returned by the harness completer (extensions of the word, unrelated values, case variants, Unicode, values with blanks; optionally described, tagged, NoSpace), completion-ignore-case on/off, key sequences of 1-6 Tab / Shift-Tab / Down / Up followed by C-c, a typed character or RET; at every wait after a completion key: buffer == L0[:ws] + v + L0[c0:] for some offered v (a blank after v is accepted once the menu is closed), or unchanged; C-c in an active menu restores (L0, c0) and the call goes on. " +
-			"distinct non-trivial = distinct (key, word class, candidate count class, local keymap, ignore-case) tuples",
-		Assumptions: []string{"word start = position after the last unescaped blank before the cursor", "no Prefix()/Suffix() modifiers on the completions"},
+		Rule: "buffers (15 shapes: empty, trailing blank, partial words, quotes, escaped blanks, multi-byte) with the cursor at the end or moved back 0..len characters, candidate sets of 1-8 values returned by the harness completer (extensions of the word, unrelated values, case variants, Unicode, values with blanks; optionally described, tagged, NoSpace('/','=')), completion-ignore-case on/off, key sequences of 1-6 menu keys (Tab, Shift-Tab, arrows, C-n, C-p, C-f = incremental search of the candidates, C-@ = accept-and-menu-complete) ended by C-c, a typed character, a blank or RET; one case in three goes on with a second round on the same shell (a word typed after the first round that is an offered value or a prefix of one, then menu keys again). The word being completed is anchored at the last wait without an active menu. At every wait after a menu key: buffer == anchor[:ws] + v + anchor[c0:] for an offered v (a blank after v is accepted once the menu is closed), or unchanged; typing a character with a candidate inserted gives anchor[:ws] + v + char + anchor[c0:] (v may lose a trailing '/' or '=' the completer declared removable); C-@ keeps the accepted candidate whole; C-c in an active menu restores the anchor buffer and cursor and the call goes on. " +
+			"distinct non-trivial = distinct (key, word class, candidate count class, local keymap, ignore-case, round) tuples",
+		Assumptions: []string{"word start = position after the last unescaped blank before the cursor", "no Prefix()/Suffix() modifiers on the completions", "while the candidates are searched incrementally the API exposes the search minibuffer instead of the input line: those waits are not judged, the next wait outside the minibuffer is", "Vi cases stop being judged once an unbound escape sequence has left insert mode"},
 		N: func(tier string) int {
 			if tier == "thorough" {
 				return 60000
